@@ -37,12 +37,12 @@ Definition err_code (e : err) : Z :=
   end.
 
 (* the direct call: getEndpointsForIngressBackend / getEndpointsForSubselector *)
-Definition direct_agrees (plus : bool) (c : Cluster) (ns : string) (b : Backend)
+Definition direct_agrees (fx : Fixes) (plus : bool) (c : Cluster) (ns : string) (b : Backend)
            (obs_err : Z) (obs_eps : list pep) (obs_external : bool) : bool :=
   let sub := match b_kind b with KVS | KVSR => b_subsel b | _ => [] end in
   match sub with
   | [] =>
-      match resolve plus c ns (b_svc b) (b_port b) with
+      match resolve fx plus c ns (b_svc b) (b_port b) with
       | Ok (l, x) => (obs_err =? 0) && perm_pep l obs_eps && Bool.eqb x obs_external
       | Err e => (obs_err =? err_code e)
       end
@@ -53,13 +53,13 @@ Definition direct_agrees (plus : bool) (c : Cluster) (ns : string) (b : Backend)
       end
   end.
 
-Definition case_agrees (plus resolver : bool) (c : Cluster) (ns : string) (b : Backend)
+Definition case_agrees (fx : Fixes) (plus resolver : bool) (c : Cluster) (ns : string) (b : Backend)
            (obs_err : Z) (obs_eps : list pep) (obs_external : bool)
            (obs_entry : list string) (obs_extsvc : bool) (obs_servers : list string) : bool :=
   (* the two calls list the pods independently *)
-  existsb (fun c' => direct_agrees plus c' ns b obs_err obs_eps obs_external) (pod_orders c) &&
+  existsb (fun c' => direct_agrees fx plus c' ns b obs_err obs_eps obs_external) (pod_orders c) &&
   existsb (fun c' =>
-    let e := endpoints_entry plus c' ns b in
+    let e := endpoints_entry fx plus c' ns b in
     perm_eqb (fst e) obs_entry && Bool.eqb (snd e) obs_extsvc &&
     perm_eqb (rendered plus resolver (b_kind b) e) obs_servers) (pod_orders c).
 
@@ -82,20 +82,24 @@ Definition expected_num (c : Cluster) (svc : Service) (sub : labels) (P : Z) : l
   let ideal := match sub with [] => ideal_num c svc P | _ => ideal_sub c svc sub P end in
   map fst (dedup (filter (fun p => mem (fst p) ideal) (pairs_num c svc P))).
 
+(* with or without repair F41 (every address once) *)
+Definition matches_expected (obs exp : list string) : bool :=
+  perm_eqb obs exp || perm_eqb obs (nodup string_dec exp).
+
 (* the observed entry is what resolving the target [tgt] BY NUMBER gives (for a name: through
    any one selected pod; nothing at all when there is no pod or a pod lacks the name) *)
 Definition explained_by_number (c : Cluster) (svc : Service) (sub : labels) (tgt : target) (port : Z) (proto : string)
            (obs_entry : list string) : bool :=
   match tgt with
-  | TUnset => perm_eqb obs_entry (expected_num c svc sub port)
-  | TNum n => perm_eqb obs_entry (expected_num c svc sub n)
+  | TUnset => matches_expected obs_entry (expected_num c svc sub port)
+  | TNum n => matches_expected obs_entry (expected_num c svc sub n)
   | TNamed s =>
       let pods := selected_pods c svc in
       (is_nil obs_entry &&
        (is_nil pods || existsb (fun pod => match find_port pod s proto with
                                            | None => true | Some n => n =? 0 end) pods))
       || existsb (fun pod => match find_port pod s proto with
-                             | Some n => perm_eqb obs_entry (expected_num c svc sub n)
+                             | Some n => matches_expected obs_entry (expected_num c svc sub n)
                              | None => false end) pods
   end.
 
@@ -128,7 +132,7 @@ Definition spec_kind (plus resolver : bool) (c : Cluster) (ns : string) (b : Bac
                 if negb (String.eqb (bp_name (b_port b)) "") &&
                    perm_eqb obs_entry [join_plain (s_extname svc) 0] then 5 else 9
             else
-            match spec_ref_port (b_port b) (s_ports svc), find_svc_port (b_port b) (s_ports svc) with
+            match spec_ref_port (b_port b) (s_ports svc), find_svc_port legacy (b_port b) (s_ports svc) with
             | Some sp, _ =>
                 if explained_by_number c svc sub (sp_target sp) (sp_port sp) (sp_proto sp) obs_entry then
                   if same_set obs_entry ideal then 1
@@ -145,7 +149,7 @@ Definition spec_kind (plus resolver : bool) (c : Cluster) (ns : string) (b : Bac
   end.
 
 (* one row per backend: [id; model agrees; spec holds; nontrivial; branch tag; failure kind] *)
-Definition branch_tag (plus : bool) (c : Cluster) (ns : string) (b : Backend) : Z :=
+Definition branch_tag (fx : Fixes) (plus : bool) (c : Cluster) (ns : string) (b : Backend) : Z :=
   let k := match b_kind b with KIng => 100 | KVS => 200 | KVSR => 300 | KTS => 400 end in
   let sub := match b_kind b with KVS | KVSR => negb (is_nil (b_subsel b)) | _ => false end in
   let useip := match b_kind b with KTS => false | _ => b_clusterip b end in
@@ -153,10 +157,10 @@ Definition branch_tag (plus : bool) (c : Cluster) (ns : string) (b : Backend) : 
   match find_svc c ns (b_svc b) with
   | None => 1
   | Some svc =>
-      match resolve plus c ns (b_svc b) (b_port b) with
+      match resolve fx plus c ns (b_svc b) (b_port b) with
       | Ok (_, true) => 2
       | Ok (_, false) =>
-          match find_svc_port (b_port b) (s_ports svc) with
+          match find_svc_port fx (b_port b) (s_ports svc) with
           | Some sp => match sp_target sp with TUnset => 3 | TNum _ => 4 | TNamed _ => 5 end
           | None => 9
           end
@@ -164,15 +168,15 @@ Definition branch_tag (plus : bool) (c : Cluster) (ns : string) (b : Backend) : 
       end
   end.
 
-Definition backend_case (id : Z) (plus resolver : bool) (c : Cluster) (ns : string) (b : Backend)
+Definition backend_case (id : Z) (fx : Fixes) (plus resolver : bool) (c : Cluster) (ns : string) (b : Backend)
            (obs_err : Z) (obs_eps : list pep) (obs_external : bool)
            (obs_entry : list string) (obs_extsvc : bool) (obs_servers : list string) : list Z :=
   let k := spec_kind plus resolver c ns b obs_entry obs_extsvc obs_servers in
   [id;
-   if case_agrees plus resolver c ns b obs_err obs_eps obs_external obs_entry obs_extsvc obs_servers then 1 else 0;
+   if case_agrees fx plus resolver c ns b obs_err obs_eps obs_external obs_entry obs_extsvc obs_servers then 1 else 0;
    if k =? 0 then 1 else 0;
    if is_nil obs_entry then 0 else 1;
-   branch_tag plus c ns b;
+   branch_tag fx plus c ns b;
    k].
 
 (* ---------- the dynamic family: what is configured after watch events ---------- *)
@@ -187,11 +191,11 @@ Definition entry_of_servers (k : bkind) (servers : list string) : list string :=
 (* [c] is the cluster AFTER the events.  Model (X): once the queue is drained the file holds
    the rendering of the resolution on [c].  Specification (S): C14 on [c], evaluated on the
    configured servers. *)
-Definition dyn_case (id : Z) (plus resolver : bool) (c : Cluster) (ns : string) (b : Backend)
+Definition dyn_case (id : Z) (fx : Fixes) (plus resolver : bool) (c : Cluster) (ns : string) (b : Backend)
            (obs_servers : list string) : list Z :=
   let entry := entry_of_servers (b_kind b) obs_servers in
   let k := spec_kind plus resolver c ns b entry false obs_servers in
-  let agrees := existsb (fun c' => perm_eqb (rendered plus resolver (b_kind b) (endpoints_entry plus c' ns b)) obs_servers)
+  let agrees := existsb (fun c' => perm_eqb (rendered plus resolver (b_kind b) (endpoints_entry fx plus c' ns b)) obs_servers)
                         (pod_orders c) in
   [id; if agrees then 1 else 0; if k =? 0 then 1 else 0; if is_nil entry then 0 else 1;
-   500 + branch_tag plus c ns b; k].
+   500 + branch_tag fx plus c ns b; k].
